@@ -44,7 +44,10 @@ def _m4():
 def configs(ctx):
     if ctx.quick:
         return [('M1', _m1(), 3, 1, Spec, 2.0), ('M4', _m4(), 5, 0, Spec, 1.0)]
-    return [('M1', _m1(), 5, 1, Spec, 2.0), ('M4', _m4(), 8, 1, Spec, 1.0)]
+    late = _m1()
+    late['allow_late'] = True
+    return [('M1', _m1(), 5, 1, Spec, 2.0), ('M4', _m4(), 8, 1, Spec, 1.0),
+            ('M1-late', late, 4, 1, Spec, 1.0)]
 
 
 RULE = ('BFS over histories of ZooKeeper-level events, each followed by a '
